@@ -24,6 +24,7 @@ type Result struct {
 	File     string
 	Region   string // for split obligations: "outside"/"inside" known region
 	Sub      string
+	Parts    int
 }
 
 type solverSpec struct {
@@ -45,18 +46,27 @@ var solvers = []solverSpec{
 
 // smtText renders the query for an obligation: everything emitted before it, plus guard && !formula (extra = additional assertion).
 func smtText(fv *FuncVC, o *Obligation, extra string, forCVC5 bool) string {
+	return smtTextF(fv, o, o.Formula, extra, forCVC5)
+}
+
+func smtTextF(fv *FuncVC, o *Obligation, formula, extra string, forCVC5 bool) string {
 	var b strings.Builder
 	if forCVC5 {
 		b.WriteString("(set-logic ALL)\n")
 	}
 	b.WriteString("(set-option :produce-models true)\n")
 	if o.Class == "cover-pre" {
+		// satisfiability of everything assumed at entry; quantified prelude axioms (identical in every VC) are left out
+		// so that the solver can answer sat
 		for _, l := range fv.VC.lines[:o.NDecls] {
+			if l.assume && (strings.Contains(l.s, "(forall ") || strings.Contains(l.s, "(exists ")) {
+				continue
+			}
 			b.WriteString(l.s)
 			b.WriteByte('\n')
 		}
 	} else {
-		for _, l := range fv.VC.sliceLines(o.NDecls, o.Guard+" "+o.Formula+" "+extra) {
+		for _, l := range fv.VC.sliceLines(o.NDecls, o.Guard+" "+formula+" "+extra) {
 			b.WriteString(l)
 			b.WriteByte('\n')
 		}
@@ -64,7 +74,7 @@ func smtText(fv *FuncVC, o *Obligation, extra string, forCVC5 bool) string {
 	if extra != "" {
 		b.WriteString("(assert " + extra + ")\n")
 	}
-	b.WriteString("(assert (and " + o.Guard + " (not " + o.Formula + ")))\n")
+	b.WriteString("(assert (and " + o.Guard + " (not " + formula + ")))\n")
 	b.WriteString("(check-sat)\n")
 	var vals []string
 	for _, in := range fv.Inputs {
@@ -94,7 +104,11 @@ func modelTerms(vc *VC, in inputVar) []string {
 var workDir string
 
 func runSolver(sp solverSpec, file string, secs, seed int) (status, out string, dur float64) {
-	ctx, cancel := context.WithTimeout(context.Background(), time.Duration(secs+5)*time.Second)
+	return runSolverCtx(context.Background(), sp, file, secs, seed)
+}
+
+func runSolverCtx(parent context.Context, sp solverSpec, file string, secs, seed int) (status, out string, dur float64) {
+	ctx, cancel := context.WithTimeout(parent, time.Duration(secs+5)*time.Second)
 	defer cancel()
 	args := sp.args(file, secs, seed)
 	cmd := exec.CommandContext(ctx, args[0], args[1:]...)
@@ -130,11 +144,16 @@ func solveQuery(name, text, textCVC5 string, budget int, seed int, fp bool) (sta
 		first = budget / 2
 	}
 	t0 := time.Now()
-	st, o, _ := runSolver(solvers[0], file, first, seed)
-	if st == "sat" || st == "unsat" {
-		return st, "z3-new", o, time.Since(t0).Seconds(), file
+	firstOut := ""
+	if !fp {
+		st, o, _ := runSolver(solvers[0], file, first, seed)
+		if st == "sat" || st == "unsat" {
+			return st, "z3-new", o, time.Since(t0).Seconds(), file
+		}
+		firstOut = o
 	}
-	firstOut := o
+	raceCtx, cancelRace := context.WithCancel(context.Background())
+	defer cancelRace()
 	// race all three with the full budget
 	type ans struct {
 		st, solver, out string
@@ -153,7 +172,7 @@ func solveQuery(name, text, textCVC5 string, budget int, seed int, fp bool) (sta
 		sd := seed + i + 1
 		go func(sp solverSpec, f string) {
 			defer wg.Done()
-			st, o, _ := runSolver(sp, f, budget, sd)
+			st, o, _ := runSolverCtx(raceCtx, sp, f, budget, sd)
 			ch <- ans{st, sp.name, o}
 		}(sp, f)
 	}
@@ -196,13 +215,17 @@ func sanitizeFile(s string) string {
 // Solve all obligations of a set of function VCs.
 func SolveAll(fvs []*FuncVC, want func(*Obligation) bool, budget, fpBudget, seed int, known *KnownFindings) []*Result {
 	type job struct {
-		fv     *FuncVC
-		o      *Obligation
-		extra  string
-		region string
-		kf     *KnownFinding
+		fv      *FuncVC
+		o       *Obligation
+		extra   string
+		region  string
+		kf      *KnownFinding
+		formula string
+		group   int
+		guard   string
 	}
 	var jobs []job
+	ngroups := 0
 	for _, fv := range fvs {
 		for _, o := range fv.Obls {
 			if !want(o) {
@@ -213,11 +236,52 @@ func SolveAll(fvs []*FuncVC, want func(*Obligation) bool, budget, fpBudget, seed
 				if err != nil {
 					rt = "!" + err.Error()
 				}
-				jobs = append(jobs, job{fv, o, rt, "outside", kf}, job{fv, o, rt, "inside", kf})
+				guards := []string{""}
+				if len(o.AltGuards) > 1 && len(o.AltGuards) <= 8 {
+					guards = o.AltGuards
+				}
+				for _, part := range splitAnd(o.Formula) {
+					for _, g := range guards {
+						jobs = append(jobs, job{fv: fv, o: o, extra: rt, region: "outside", kf: kf, formula: part, group: ngroups, guard: g})
+					}
+				}
+				ngroups++
+				jobs = append(jobs, job{fv: fv, o: o, extra: rt, region: "inside", kf: kf, formula: o.Formula, group: ngroups})
+				ngroups++
 				continue
 			}
-			jobs = append(jobs, job{fv: fv, o: o})
+			parts := []string{o.Formula}
+			if o.Expect == "" {
+				parts = splitAnd(o.Formula)
+			}
+			guards := []string{""}
+			if len(o.AltGuards) > 1 && len(o.AltGuards) <= 8 && strings.Contains(strings.Join(lineStrings(fv.VC.lines[:o.NDecls]), " ")+o.Formula, "fp.") {
+				guards = o.AltGuards
+			}
+			for _, part := range parts {
+				for _, g := range guards {
+					jobs = append(jobs, job{fv: fv, o: o, formula: part, group: ngroups, guard: g})
+				}
+			}
+			ngroups++
 		}
+	}
+	// query texts are produced sequentially (the VC's caches are not thread-safe)
+	type qtext struct{ txt, txtC string }
+	texts := make([]qtext, len(jobs))
+	for i, j := range jobs {
+		extra := ""
+		if j.kf != nil && !strings.HasPrefix(j.extra, "!") {
+			if j.region == "outside" {
+				extra = "(not " + j.extra + ")"
+			} else {
+				extra = j.extra
+			}
+		}
+		if j.guard != "" {
+			extra = and(extra, j.guard)
+		}
+		texts[i] = qtext{smtTextF(j.fv, j.o, j.formula, extra, false), smtTextF(j.fv, j.o, j.formula, extra, true)}
 	}
 	results := make([]*Result, len(jobs))
 	var wg sync.WaitGroup
@@ -244,13 +308,17 @@ func SolveAll(fvs []*FuncVC, want func(*Obligation) bool, budget, fpBudget, seed
 				}
 				name += "@" + j.region
 			}
-			fp := strings.Contains(strings.Join(lineStrings(j.fv.VC.lines[:j.o.NDecls]), "\n"), "fp.") || strings.Contains(j.o.Formula, "fp.")
+			txt, txtC := texts[i].txt, texts[i].txtC
+			_ = extra
+			fp := strings.Contains(txt, "fp.")
 			b := budget
 			if fp {
 				b = fpBudget
 			}
-			txt := smtText(j.fv, j.o, extra, false)
-			txtC := smtText(j.fv, j.o, extra, true)
+			if j.o.Expect == "sat" {
+				b = 8
+			}
+			name += fmt.Sprintf("~%d", i)
 			st, solver, out, secs, file := solveQuery(name, txt, txtC, b, seed, fp)
 			r := &Result{Obl: j.o, FV: j.fv, Solver: solver, Secs: secs, Output: out, File: file, Region: j.region}
 			switch {
@@ -279,7 +347,51 @@ func SolveAll(fvs []*FuncVC, want func(*Obligation) bool, budget, fpBudget, seed
 		}(i)
 	}
 	wg.Wait()
-	return results
+	// combine the parts of each obligation: the worst status wins
+	rank := map[string]int{"proved": 0, "cover-ok": 0, "cover-unknown": 1, "unknown": 2, "error": 3, "failed": 4, "vacuous": 4}
+	var combined []*Result
+	byGroup := map[int]*Result{}
+	for i, r := range results {
+		g := jobs[i].group
+		c, ok := byGroup[g]
+		if !ok {
+			byGroup[g] = r
+			r.Parts = 1
+			combined = append(combined, r)
+			continue
+		}
+		c.Parts++
+		if r.Secs > c.Secs && rank[r.Status] >= rank[c.Status] || rank[r.Status] > rank[c.Status] {
+			parts := c.Parts
+			*c = *r
+			c.Parts = parts
+		}
+	}
+	return combined
+}
+
+// splitAnd splits a formula at its top-level conjunctions
+func splitAnd(f string) []string {
+	nodes := parseSx(f)
+	if len(nodes) != 1 {
+		return []string{f}
+	}
+	var out []string
+	var walk func(n *sx)
+	walk = func(n *sx) {
+		if !n.leaf && len(n.list) > 1 && n.list[0].leaf && n.list[0].atom == "and" {
+			for _, c := range n.list[1:] {
+				walk(c)
+			}
+			return
+		}
+		out = append(out, n.String())
+	}
+	walk(nodes[0])
+	if len(out) > 12 {
+		return []string{f}
+	}
+	return out
 }
 
 func lineStrings(ls []line) []string {
